@@ -238,6 +238,10 @@ class Host:
     def freadfault(self):
         return self.cmd("FREADFAULT")
 
+    def peerstall(self):
+        """The server is slow to read during the next step (socket-pair mode only)."""
+        return self.cmd("PEERSTALL")
+
     def freadshort(self, n):
         return self.cmd("FREADSHORT %d" % n)
 
